@@ -130,14 +130,57 @@ A_SUBPATHS_CALL = Contract(
     canaries={"never_dispatches": "calls.n == 0"},
 )
 
+# ----- PEP 3333 transcoding of PATH_INFO (baize/wsgi/routing.py _decode_path / _encode_path): A-transcode
+# wsgi_dec reads the Latin-1 string as UTF-8 bytes (surrogateescape), wsgi_enc is its inverse.  Used facts, as ground
+# instances: enc(dec(x)) == x;  enc is a homomorphism for concatenation;  ASCII is fixed, so emptiness and a leading '/' are
+# preserved.  (The two helpers are 4 lines of codec calls each; their codec behaviour is checked by the bounded layer.)
+def _dec(t):
+    return ufunc("wsgi_dec", S, S)(t)
+
+
+def _enc(t):
+    return ufunc("wsgi_enc", S, S)(t)
+
+
+def decode_path_stub(ev, args, kwargs, node):
+    USED.add("A-transcode")
+    raw = args[0]
+    d = _dec(raw.t)
+    ev.st.assume(_enc(d) == raw.t)
+    ev.st.assume((d == z3.StringVal("")) == (raw.t == z3.StringVal("")))
+    ev.st.ghost["_enc_seen"] = []
+    return VStr(d)
+
+
+def encode_path_stub(ev, args, kwargs, node):
+    USED.add("A-transcode")
+    a = args[0].t
+    e = _enc(a)
+    st = ev.st
+    st.assume((a == z3.StringVal("")) == (e == z3.StringVal("")))
+    st.assume(z3.PrefixOf(z3.StringVal("/"), a) == z3.PrefixOf(z3.StringVal("/"), e))
+    seen = st.ghost.get("_enc_seen")
+    if seen is None:
+        seen = st.ghost["_enc_seen"] = []
+    for b in seen:
+        st.assume(_enc(z3.Concat(b, a)) == z3.Concat(_enc(b), e))
+    seen.append(a)
+    return VStr(e)
+
+
+TRANSCODE_UF = {"wsgi_dec": ([Str], Str), "wsgi_enc": ([Str], Str)}
+TRANSCODE_STUBS = {"_decode_path": decode_path_stub, "_encode_path": encode_path_stub}
+
 W_ENV = Dict(PATH_INFO=Maybe_(Str), SCRIPT_NAME=Maybe_(Str))
 W_CALL_DEFS = dict(c02.HDEFS)
 W_CALL_DEFS.update(SUB_DEFS)
 W_CALL_DEFS.update({
     "old_root()": "old(environ['SCRIPT_NAME'] if has(environ, 'SCRIPT_NAME') else '')",
     "old_path()": "old(environ['PATH_INFO'] if has(environ, 'PATH_INFO') else '')",
-    "some_hit()": "exists(k, 0, len(self._route_array), hit(self._route_array[k][0], old_path()))",
-    "first(k)": "hit(self._route_array[k][0], old_path()) and forall(j, 0, k, not hit(self._route_array[j][0], old_path()))",
+    # prefixes are text; the request path is matched as text too: PATH_INFO read as UTF-8 (wsgi_dec)
+    "dpath()": "wsgi_dec(old_path())",
+    "some_hit()": "exists(k, 0, len(self._route_array), hit(self._route_array[k][0], dpath()))",
+    "first(k)": "hit(self._route_array[k][0], dpath()) and forall(j, 0, k, not hit(self._route_array[j][0], dpath()))",
 })
 
 W_ROUTES_T = ROUTES_T
@@ -149,7 +192,7 @@ W_SUBPATHS_CALL = Contract(
             "start_response": TFunc(c02.start_response_stub, "start_response")},
     ghosts=W_GHOSTS,
     requires=["WF(self._route_array)", "calls.n == 0", "tr.n_start == 0", "out.n_yield == 0", "out.out_len == 0"],
-    defs=W_CALL_DEFS, ufuncs=c02.HUF, consts=c02.wsgi_consts(),
+    defs=W_CALL_DEFS, ufuncs=dict(c02.HUF, **TRANSCODE_UF), consts=c02.wsgi_consts(), stubs=TRANSCODE_STUBS,
     on_yield_from=yield_from_app, on_yield=c02.call_yield, yield_mods=("out",),
     modifies=["environ"], ghost_modifies=["tr", "out", "calls"],
     ensures={
@@ -159,12 +202,13 @@ W_SUBPATHS_CALL = Contract(
                           "implies(has(environ, 'PATH_INFO'), environ['PATH_INFO'] == old(environ['PATH_INFO'])) and "
                           "implies(has(environ, 'SCRIPT_NAME'), environ['SCRIPT_NAME'] == old(environ['SCRIPT_NAME'])))",
         "hit.dispatch": "implies(some_hit(), calls.n == 1 and tr.n_start == 0 and exists(k, 0, len(self._route_array), first(k) and "
-                        "calls.app == self._route_array[k][1] and calls.root == old_root() + self._route_array[k][0] and "
-                        "calls.path == old_path()[len(self._route_array[k][0]):]))",
+                        "calls.app == self._route_array[k][1] and calls.root == old_root() + wsgi_enc(self._route_array[k][0]) and "
+                        "calls.path == wsgi_enc(dpath()[len(self._route_array[k][0]):])))",
+        # in the environ's own (Latin-1) terms nothing is lost: SCRIPT_NAME + PATH_INFO is what it was
         "hit.full_path_kept": "implies(some_hit(), calls.root + calls.path == old_root() + old_path())",
         "hit.remainder_is_a_path": "implies(some_hit(), calls.path == '' or calls.path.startswith('/'))",
     },
-    assumptions=["A-server"],
+    assumptions=["A-server", "A-transcode"],
     canaries={"never_dispatches": "calls.n == 0"},
 )
 
